@@ -462,6 +462,14 @@ func (c *Cluster) respond(q *Req, v replyVariant) {
 		return
 	}
 	var after func()
+	if len(req.Key) > 250 && req.Command != memd.CmdCollectionsGetID {
+		// kv_engine refuses keys longer than 250 bytes
+		res.Status = memd.StatusInvalidArgs
+		ev.S2 = statusName(res.Status)
+		w.jl(ev)
+		cn.write(res)
+		return
+	}
 	switch req.Command {
 	case memd.CmdCollectionsGetID:
 		name := string(req.Value)
